@@ -252,6 +252,23 @@ def check_reentrancy(chk):
         enc.append(('ChunkSectionPos', M.ChunkSectionPos.send, (x, y, z), struct.pack('>Q', (x % 2 ** 22) * 2 ** 42 + (z % 2 ** 22) * 2 ** 20 + y % 2 ** 20),
                     (lambda d: tuple(M.ChunkSectionPos.read(Buf(d))))))
     reent.after_failure(chk, 'reentrancy', [e[:4] for e in enc])
+    # the packing depends on the three numbers, not on the kind of sequence they come in
+    from minecraft.networking.types import Vector
+    shapes = [('tuple', tuple), ('list', list), ('Vector', lambda t: Vector(*t)), ('Position', lambda t: Position(*t)),
+              ('ChunkSectionPos', lambda t: M.ChunkSectionPos(*t)), ('generator', lambda t: (v for v in t))]
+    for label, send, t, exp, _rd in enc:
+        for sname, mk_shape in shapes:
+            chk.count('argument-shape', [label, sname, list(t)], True)
+            b = Buf()
+            try:
+                send(mk_shape(t), b)
+                got = b.out
+            except Exception as e:
+                got = 'raised ' + exn_name(e)
+            if got != exp:
+                chk.violation('argument-shape', 'shape:%s:%s:%r' % (label, sname, t), {'case': {'codec': label, 'argument': '%s%r' % (sname, tuple(t))}, 'expected': exp.hex(), 'observed': got.hex() if isinstance(got, bytes) else got},
+                              '%s of %s%r is %s; of the plain tuple %s' % (label, sname, tuple(t), got.hex() if isinstance(got, bytes) else got, exp.hex()))
+                break
 
     def mk(send, v):
         def call():
